@@ -275,6 +275,9 @@ def apply_obligations(ctx, R, prover, pid):
             z3.Implies(r["guard"], _any(z3.And(s_["guard"], s_["ok"], s_["path"] == r["path"], z3.BoolVal(s_["seq"] < r["seq"]),
                                                _any(z3.And(c["guard"], c["to"] == r["path"], z3.BoolVal(c["seq"] < s_["seq"])) for c in copies)) for s_ in syncs))
             for r in renames)
+    if pid == "C07":
+        goals["a-file-is-removed-only-by-a-Delete-action,-and-only-that-side's-path"] = _all(
+            z3.Implies(e["guard"], z3.Or(z3.And(is_("DeleteA"), e["path"] == W.pa), z3.And(is_("DeleteB"), e["path"] == W.pb))) for e in removes)
     if pid == "C02":
         goals["a-file-is-removed-only-by-a-Delete-action,-and-only-that-side's-path"] = _all(
             z3.Implies(e["guard"], z3.Or(z3.And(is_("DeleteA"), e["path"] == W.pa), z3.And(is_("DeleteB"), e["path"] == W.pb))) for e in removes)
@@ -302,6 +305,18 @@ def apply_obligations(ctx, R, prover, pid):
                                                 _same_conflict_name(r1["to"], r2["to"], lose_root, win_root, W)))
                 conds.append(z3.Implies(z3.And(r["guard"], both, cond, r["to"] == lose_p), _any(saved)))
         goals["both-changed:-the-losing-version-is-delivered-to-a-conflict-name-on-BOTH-sides-before-its-path-is-overwritten"] = _all(conds)
+        # a conflict copy is named after the digest of its content; a file ALREADY at that name with another digest (a conflict copy the
+        # user has edited since) is a version of its own and must not be overwritten
+        clob = []
+        for r in renames:
+            t = simp(r["to"])
+            if z3.is_app(t) and t.decl().name() == "path_join" and _fmt_parts(simp(t.arg(1))) is not None:
+                name = t.arg(1)
+                for root, m in ((W.RA, W.MA), (W.RB, W.MB)):
+                    loser = [z3.If(a_wins, y, x) for x, y in zip(fa, fb)]
+                    same = z3.And(*[FPB[i](m, name) == loser[i] for i in range(32)])
+                    clob.append(z3.Implies(z3.And(r["guard"], both, t.arg(0) == root, PRES(m, name)), same))
+        goals["a-conflict-copy-never-overwrites-a-DIFFERENT-file-already-at-that-name-(an-edited-earlier-conflict-copy)"] = _all(clob)
         goals["delete-vs-modify-never-removes-anything-and-restores-the-survivor"] = z3.Implies(
             z3.And(dvm, ok), z3.And(z3.Implies(a_has, delivered(W.pa, W.pb)), z3.Implies(z3.And(z3.Not(a_has), b_has), delivered(W.pb, W.pa))))
         goals["propagation-delivers-or-reports-an-error"] = z3.And(
@@ -336,6 +351,8 @@ def apply_obligations(ctx, R, prover, pid):
             z3.Implies(e["guard"], z3.And(z3.Or(is_("DeleteA"), is_("DeleteB")), e["path"] == W.REL, e["map"] == W.MC)) for e in mremoves)
         goals["Ok-propagation/convergence-records-the-path"] = z3.Implies(
             z3.And(ok, z3.Or(is_("PropagateAtoB"), is_("ConvergeIdentical")), a_has), _any(z3.And(e["guard"], e["path"] == W.REL) for e in inserts))
+        goals["Ok-delete-vs-modify-records-the-surviving-version"] = z3.Implies(
+            z3.And(ok, dvm, z3.Or(a_has, b_has)), _any(z3.And(e["guard"], e["path"] == W.REL) for e in inserts))
         goals["a-both-changed-conflict-is-reported-to-the-caller"] = z3.Implies(
             z3.And(ok, both, a_has, b_has), _any(z3.And(e["guard"], e["path"] == W.REL) for e in eff if e["call"] == "conflict-listed"))
     covers = {"conflict-overwrite-reachable": _any(z3.And(r["guard"], both, r["to"] == W.pb) for r in renames),
